@@ -272,6 +272,58 @@ def run(tier):
         else:
             stats["caller_protection_cases"] += 1
             v.distinct(("prot", what, arg))
+    # ---- VERY long programs (66 MB of code; thorough: also 140 MB and chunk fitting): built inside the driver (asmrep) from one repeated
+    # 11-byte NOP, 4.4 MB per call, compared with a caller buffer after every call and executed from the first byte to the last. A growth
+    # policy that changes with the size, a length computed in 32 bits, a product that wraps - whatever needs tens of megabytes
+    hcases, hmeta = [], []
+    for (mb, mode) in ([(66, "plain")] if not full else [(66, "plain"), (66, "fit17"), (140, "plain"), (34, "count16")]):
+        K = 0x4455667700000000 + mb
+        per = 400000
+        ncall = mb * 1000000 // (per * 11)
+        growth = 1.6 if mode == "fit17" else 1.0
+        cmds = ["wrap reset", "wrap forcemove 0", "new 0 int", "new 1 ext %d H 0xcc" % int(mb * 1000000 * growth + 8 * 1024 * 1024)]
+        if mode == "fit17":
+            cmds += ["chunk 0 17", "chunk 1 17"]
+        for k in range(ncall):
+            if mode == "count16":
+                txt = common.hx("\n".join(["nop11"] * 20000))
+                cmds += ["cnt 0 16 %s" % txt, "cnt 1 16 %s" % txt, "sumoff 0", "sumoff 1"]
+            else:
+                cmds += ["asmrep 0 %d %s" % (per, common.hx("nop11")), "asmrep 1 %d %s" % (per, common.hx("nop11")), "sumoff 0", "sumoff 1"]
+        cmds += ["asm 0 %s" % common.hx("mov rax, 0x%x\nret" % K), "exec 0", "wrapreport"]
+        hcases.append(cmds)
+        hmeta.append((mb, mode, ncall, K))
+    hres = common.run_cases(binary, hcases, tag="c08h", per_case_timeout=900)
+    stats["huge_program_cases"] = 0
+    for (mb, mode, ncall, K), cmds, r in zip(hmeta, hcases, hres):
+        v.count()
+        case = {"key": "%d MB of code in %d calls, %s" % (mb, ncall, mode), "fam": "growth_huge", "mode": mode}
+        if r["crash"]:
+            v.violation(case, r["crash"]["sig"], (r["crash"]["what"] + "\n" + r["crash"]["stderr"][-800:]))
+            continue
+        recs = r["records"]
+        base = 4 + (2 if mode == "fit17" else 0)
+        bad = None
+        for k in range(ncall):
+            a0, a1, s0, s1 = (recs[base + 4 * k + j].split() for j in range(4))
+            if a1[1] != "0":
+                bad = ("precondition:call-failed-on-ample-caller-buffer", "call %d: %s" % (k, " ".join(a1)))
+            elif a0[1] != "0":
+                bad = ("call-failed-on-internal-buffer", "call %d at %s bytes: %s" % (k, a0[2], " ".join(a0)))
+            elif s0[1:] != s1[1:]:
+                bad = ("code-differs-from-reference" if s0[1] == s1[1] else "offset-differs-from-reference", "call %d: internal %s reference %s" % (k, s0[1:], s1[1:]))
+            if bad:
+                break
+        if not bad:
+            e = recs[-2].split()
+            if e[:2] != ["V", "ok"] or int(e[2], 16) != K:
+                bad = ("execution:" + "-".join(e[1:3]), "got %s want 0x%x" % (" ".join(e), K))
+        if bad:
+            v.violation(case, bad[0], bad[1])
+        else:
+            stats["huge_program_cases"] += 1
+            stats["max_len"] = max(stats["max_len"], mb * 1000000)
+            v.distinct(("huge", mb, mode))
     # ---- SEVERAL live library-managed instances of one thread growing ALTERNATELY (their mappings are neighbours; whatever the library
     # keeps about 'the' buffer outside the instance - a last pointer, a high-water mark - then belongs to the wrong one), one of them
     # destroyed in the middle while the others go on growing; real and forced-move mremap
@@ -345,7 +397,7 @@ def run(tier):
             v.distinct(("alt", nlive, victim, len(checks)))
     v.cov["rule"] = ("executable programs (multi-byte-nop sled + mov rax,K + ret) whose plain length is 6000*m + r for every r in -24..24 (m = %s) so the last instructions start at every distance from the growth "
                      "threshold; single call and 2-50 calls; plain / chunk fitting (8 sizes) / counting; long programs of 300 kB .. 4 MiB of code (thorough: up to 8 MiB: > 1000 growths in one instance) compared and executed the same way; ld --wrap mremap forces EVERY growth to move the mapping (old range unmapped). After every call "
-                     "(offset, FNV hash of asm_get_code[0,offset)) must equal the same calls on a 1 MiB caller buffer, and calling asm_get_code() must return K; plus 2-3 live library instances of one thread growing alternately (one of them destroyed in the middle), each compared with its caller-buffer twin after every call and executed; plus growth after the CALLER has changed the protection / advice of finished pages (mprotect read+exec, MADV_DONTDUMP, MADV_HUGEPAGE: the mapping is split, the kernel may refuse the growth - reported, retried after undoing - or the growth succeeds and the code must run); plus sequences of asm_set_offset (ahead of / behind the code so far, up to 300000) + assemble, each call's region and offset compared with the caller buffer" % mults)
+                     "(offset, FNV hash of asm_get_code[0,offset)) must equal the same calls on a 1 MiB caller buffer, and calling asm_get_code() must return K; plus a program of 66 MB of code in 15 calls (thorough: also 140 MB, chunk fitting, counting) compared after every call and executed; plus 2-3 live library instances of one thread growing alternately (one of them destroyed in the middle), each compared with its caller-buffer twin after every call and executed; plus growth after the CALLER has changed the protection / advice of finished pages (mprotect read+exec, MADV_DONTDUMP, MADV_HUGEPAGE: the mapping is split, the kernel may refuse the growth - reported, retried after undoing - or the growth succeeds and the code must run); plus sequences of asm_set_offset (ahead of / behind the code so far, up to 300000) + assemble, each call's region and offset compared with the caller buffer" % mults)
     v.cov["exhaustive"] = False
     v.cov.update(stats)
     return v.finish(None, stats["growths"] > 50 and stats["executions_ok"] > 50 and stats.get("cases_with_growth", 0) > 0.8 * len(cases), "too few growth events: %r" % stats)
